@@ -23,7 +23,7 @@ CONSTANTS Accts, Slots, Offs, Types, Names, Vals, MaxOps, MaxCalls,
           ProbeSlot,       \* a slot never used for a well-formed registration: stands for "unknown parent"
           DevFirstWins
 
-VARIABLES keys,    \* Seq of [slot, off, type, name, root]
+VARIABLES keys,    \* Seq of [slot, off, type, name, root, ntype]   (ntype = StorageKey.nodeType: "root" / "branch" / "data")
           kchild,  \* set of <<parent, slot, off, child>>
           kname,   \* set of <<parent, name, child>>
           index,   \* set of <<acct, slot, off, type, key>>
@@ -97,7 +97,7 @@ AddUnder(a, ks, parent, n, s, o, t) ==
       nameTo == IF DevFirstWins THEN new ELSE child
       alloc == (~exists) \/ (DevFirstWins /\ nameFree)
       c == IF exists THEN ks[child] ELSE [slot |-> s, off |-> o, type |-> t]
-  IN /\ keys' = IF alloc THEN Append(ks, [slot |-> s, off |-> o, type |-> t, name |-> n, root |-> FALSE]) ELSE ks
+  IN /\ keys' = IF alloc THEN Append(ks, [slot |-> s, off |-> o, type |-> t, name |-> n, root |-> FALSE, ntype |-> "branch"]) ELSE ks
      /\ kname' = IF nameFree THEN kname \cup {<<parent, n, nameTo>>} ELSE kname
      /\ kchild' = IF exists THEN kchild ELSE kchild \cup {<<parent, s, o, new>>}
      /\ index' = IF FindKey(a, c.slot, c.off, c.type) = 0 THEN index \cup {<<a, c.slot, c.off, c.type, child>>} ELSE index
@@ -114,7 +114,7 @@ RegTop(a, n, s, o, t) ==
      THEN Refused(Rec("regtop", a, n, 0, "", s, o, t, "", "refused"))
      ELSE LET dup == [acct |-> a, path |-> <<n>>, slot |-> s, off |-> o, type |-> t] \in reg
               hasRoot == RootOf(a) # 0
-              ks == IF hasRoot THEN keys ELSE Append(keys, [slot |-> -1, off |-> 0, type |-> "", name |-> "", root |-> TRUE])
+              ks == IF hasRoot THEN keys ELSE Append(keys, [slot |-> -1, off |-> 0, type |-> "", name |-> "", root |-> TRUE, ntype |-> "root"])
               root == IF hasRoot THEN RootOf(a) ELSE Len(keys) + 1
           IN \* two steps of the Go code folded into one action: create the root if missing, then AddChild
              /\ AddUnder(a, ks, root, n, s, o, t)
@@ -154,8 +154,10 @@ Change(a, s, o, t, v) ==
        IN /\ exp' = Put(exp, r, Put(old, CallIdx, AppendCollapsed(Get(old, CallIdx, <<>>), v)))
           /\ chg' = IF k = 0 THEN chg
                     ELSE LET per == Get(chg, k, <<>>) IN Put(chg, k, Put(per, CallIdx, AppendCollapsed(Get(per, CallIdx, <<>>), v)))
+          \* StorageKey.JournalChanges: the first change makes a non-root key a data node; it never goes back
+          /\ keys' = IF k = 0 \/ k \in DOMAIN chg \/ keys[k].ntype = "root" THEN keys ELSE [keys EXCEPT ![k].ntype = "data"]
           /\ hist' = Append(hist, Rec("change", a, "", 0, "", s, o, t, v, "ok"))
-          /\ UNCHANGED <<keys, kchild, kname, index, roots, calls, cur, reg>>
+          /\ UNCHANGED <<kchild, kname, index, roots, calls, cur, reg>>
 
 EnterCall ==
   /\ Len(calls) < MaxCalls
@@ -195,6 +197,19 @@ KidsOf(r) == {n \in AllIdx : PathTaken(r.acct, Append(r.path, n))}
 ChildIndicesExact ==
   /\ \A r \in reg : (Named(r) /\ FindByPath(r.acct, r.path) # 0) => ChildNames(FindByPath(r.acct, r.path)) = KidsOf(r)
   /\ \A a \in Accts : RootOf(a) # 0 => ChildNames(RootOf(a)) = {n \in Names : PathTaken(a, <<n>>)}
+\* node types (section 11 growth: not a listed property, a described behaviour): the root of an account is a root node; a registered
+\* key is a branch node until a change has been journaled for it and a data node from then on, by whichever way it is reached
+NTypeOf(k) == IF k = 0 THEN "none" ELSE keys[k].ntype
+WantNType(r) == IF Get(exp, r, <<>>) = <<>> THEN "branch" ELSE "data"
+NodeTypeExact ==
+  /\ \A r \in reg : /\ NTypeOf(FindKey(r.acct, r.slot, r.off, r.type)) = WantNType(r)
+                     /\ (Named(r) => NTypeOf(FindByPath(r.acct, r.path)) = WantNType(r))
+  /\ \A a \in Accts : RootOf(a) # 0 => keys[RootOf(a)].ntype = "root"
+\* a data node never becomes a branch node again, a root never changes type, the type of an existing key changes only with a change
+NodeTypeMonotone ==
+  [][\A k \in 1..Len(keys) : /\ (keys[k].ntype = "data" => keys'[k].ntype = "data")
+                              /\ (keys[k].ntype = "root" <=> keys'[k].ntype = "root")
+                              /\ (keys'[k].ntype # keys[k].ntype => hist'[Len(hist')].op = "change")]_vars
 \* refused operations and repeated registrations modify nothing
 RefuseIdempotent ==
   [][(hist' # hist /\ hist'[Len(hist')].res \in {"refused", "dup"}) =>
@@ -209,6 +224,6 @@ ExpOf(r) == LET e == Get(exp, r, <<>>) IN SetToSeq({[idx |-> i, vals |-> e[i]] :
 Expect ==
   [ hist |-> hist,
     reg  |-> SetToSeq({[acct |-> r.acct, path |-> r.path, slot |-> r.slot, off |-> r.off, type |-> r.type, named |-> Named(r),
-                         chg |-> ExpOf(r), kids |-> SetToSeq(KidsOf(r))] : r \in reg}),
+                         ntype |-> WantNType(r), chg |-> ExpOf(r), kids |-> SetToSeq(KidsOf(r))] : r \in reg}),
     tops |-> SetToSeq({[acct |-> a, kids |-> SetToSeq({n \in Names : PathTaken(a, <<n>>)})] : a \in Accts}) ]
 =============================================================================
